@@ -297,7 +297,7 @@ class AppMemberSuite(Suite):
         return ((pub, managed, rules, active), ops)
 
     def generate(self, rng, tier):
-        n, max_ops = (1500, 24) if tier == 'quick' else (30000, 60)
+        n, max_ops = (1000, 22) if tier == 'quick' else (20000, 60)
         out = []
         for k in range(n):
             out.append(self.gen_case(rng, max_ops, hostile=(k % 4 == 3), drift=(k % 12 == 7)))
@@ -364,9 +364,14 @@ class AppMemberSuite(Suite):
     def emit(self, case, observed):
         cfg, ops = case
         obs = []
+        prev = ([], [(i, []) for i in INSTS])      # the observation of the empty context
         for rec in observed:
             if rec[0] == 'ok':
                 _, rep, pubs, (apps, insts) = rec
+                if not pubs and (apps, insts) == prev:
+                    obs.append(app('OSame', C(rep)))         # compact form, expanded by AppMember.expand
+                    continue
+                prev = (apps, insts)
                 oapps = [(a, m, [(n, g, list(ids)) for n, g, ids in procs],
                           [(g, [tuple(e) for e in l]) for g, l in groups],
                           [(s, [tuple(e) for e in l]) for s, l in start],
@@ -470,3 +475,88 @@ class AppMemberSuite(Suite):
                 'publisher': pubs, 'payloads_with_another_program_name': drift,
                 'steps_removing_processes_from_a_surviving_application': removed_last,
                 'steps_deleting_an_application': deleted_apps}
+
+
+# ---------------------------------------------------------------- independent replays of the candidate finding
+def replay_findings():
+    """ c16-program-name-drift on the real classes, without the World / generator of this driver:
+    `/venv/bin/python harness/drv_appmember.py` (PYTHONPATH=/repo). Returns the list of (label, outcome). """
+    from supvisors.commander import Starter
+    from supvisors.rpcinterface import RPCInterface
+    from supvisors.ttypes import SupvisorsInstanceStates, SupvisorsStates
+
+    class Rules:
+        def load_application_rules(self, name, rules):
+            rules.managed = True
+            rules.start_sequence = 1
+
+        def load_program_rules(self, namespec, rules):
+            rules.start_sequence = rules.stop_sequence = 1
+
+    class Quiet(Starter):
+        def next(self):
+            return None
+
+    def world():
+        sv = svenv.make_supvisors()
+        sv.parser = Rules()
+        sv.starter = Quiet(sv)
+        sv.fsm.state = SupvisorsStates.OPERATION
+        sv.external_publisher = None
+        for st in sv.context.instances.values():
+            st.stats_collector = None
+            st._state = SupvisorsInstanceStates.RUNNING
+        return sv, RPCInterface(sv), sv.context.instances[ident(1)], sv.context.instances[ident(2)]
+
+    def info(name, prog, index=0):
+        p = payload(0, 0, 0)
+        p.update({'group': 'movies', 'name': name, 'program_name': prog, 'process_index': index})
+        return p
+
+    out = []
+
+    def attempt(label, f):
+        try:
+            out.append((label, 'returned %r' % (f(),)))
+        except Exception as exc:
+            out.append((label, 'raised %s: %r' % (type(exc).__module__ + '.' + type(exc).__name__, exc)))
+
+    # 1. two Supervisor configurations give movies:player from two different program sections
+    sv, rpc, s1, s2 = world()
+    sv.context.load_processes(s1, [info('player', 'player_a')], check_state=False)
+    sv.context.load_processes(s2, [info('player', 'player_b')], check_state=False)
+    attempt('start_application after movies:player announced as program player_a then player_b',
+            lambda: rpc.start_application(0, 'movies', False))
+    attempt('restart_sequence in the same context', lambda: rpc.restart_sequence(False))
+    attempt('PROCESS_REMOVED movies:player from the first instance',
+            lambda: sv.context.on_process_removed_event(s1, {'group': 'movies', 'name': 'player'}))
+    attempt('PROCESS_REMOVED movies:player from the second (last) instance',
+            lambda: sv.context.on_process_removed_event(s2, {'group': 'movies', 'name': 'player'}))
+    # 2. rolling update: the program section is renamed on instance 1 (group removed, then added again) while
+    #    instance 2 still runs the former configuration
+    sv, rpc, s1, s2 = world()
+    sv.context.load_processes(s1, [info('player', 'player')], check_state=False)
+    sv.context.load_processes(s2, [info('player', 'player')], check_state=False)
+    sv.context.on_process_removed_event(s1, {'group': 'movies', 'name': '*'})
+    sv.context.load_processes(s1, [info('player', 'player_v2')], check_state=False)
+    attempt('start_application after a program section was renamed on one instance only',
+            lambda: rpc.start_application(0, 'movies', False))
+    # 3. the second program name is the homogeneous group of another process: ValueError in list.remove
+    sv, rpc, s1, s2 = world()
+    sv.context.load_processes(s1, [info('player', 'player_a'), info('encoder', 'player_b')], check_state=False)
+    sv.context.load_processes(s2, [info('player', 'player_b')], check_state=False)
+    sv.context.on_process_removed_event(s1, {'group': 'movies', 'name': 'player'})
+    attempt('PROCESS_REMOVED from the last instance when the second program name is the group of another process',
+            lambda: sv.context.on_process_removed_event(s2, {'group': 'movies', 'name': 'player'}))
+    # control: the same history with one program name
+    sv, rpc, s1, s2 = world()
+    sv.context.load_processes(s1, [info('player', 'player')], check_state=False)
+    sv.context.load_processes(s2, [info('player', 'player')], check_state=False)
+    attempt('control: start_application with one program name', lambda: rpc.start_application(0, 'movies', False))
+    return out
+
+
+if __name__ == '__main__':
+    svenv.install_clock()
+    for label, outcome in replay_findings():
+        print(f'{label}\n    -> {outcome}')
